@@ -793,6 +793,18 @@ def via_manifest_cases(env, rng) -> list[dict]:
     for i, drm in enumerate(sels):
         route, stream, mf, mode = combos[i % len(combos)]
         cases.append({"kind": "via_manifest", "route": route, "stream": stream, "manifest": mf, "mode": mode, "drm": drm})
+    # licence-URL overrides with URL-special content (percent escapes, +, & ; =, unicode, braces) handed on
+    # through the advertised init URL, for every DRM system's option
+    import urllib.parse
+    k = 0
+    for name in ("lu1", "lu2", "lu3", "lu5"):
+        url = c11_env.STORED_LA_URLS[name]
+        for param, value in (("playready__la_url", urllib.parse.quote_plus(url)), ("playready_la_url", url),
+                             ("marlin__la_url", urllib.parse.quote_plus(url)), ("clearkey_la_url", url)):
+            route, mode = [("dash", "vod"), ("dash", "live"), ("mps", "vod")][k % 3]
+            k += 1
+            cases.append({"kind": "via_manifest", "route": route, "stream": "bbb", "manifest": "hand_made.mpd", "mode": mode,
+                          "drm": ["playready", "all", "playready-moov,clearkey"][k % 3], "la": [param, value]})
     # selection coming from the stream defaults: single-period manifest of `sd`, and the multi-period
     # manifest (which has `sd` as one of its periods), both without a drm parameter
     for route, mode in (("dash", "vod"), ("dash", "live"), ("mps", "vod"), ("mps", "live")):
@@ -807,6 +819,8 @@ def run_via_manifest(env, c, only_rep: str | None = None):
     import appboot
     client = env.app.client()
     params = {"drm": c["drm"]} if c.get("drm") is not None else {}
+    if c.get("la"):
+        params[c["la"][0]] = c["la"][1]
     if c["route"] == "mps":
         url = f"/mps/{c['mode']}/{c11_env.MPS_NAME}/{c['manifest']}" + lib.query(params)
     else:
@@ -834,8 +848,35 @@ def run_via_manifest(env, c, only_rep: str | None = None):
             route = "mps" if iurl.startswith("/mps/") else "dash"
             ic = {"kind": "init", "route": route, "stream": m["stream"], "name": rep_id, "mode": c["mode"],
                   "drm": c["drm"], "version": None}
+            # only `<drm>__la_url` options are handed on (the raw `<drm>_la_url` argument is not an option);
+            # a multi-period manifest ignores a period's stream defaults (ledger C11
+            # mps-manifest-ignores-period-stream-defaults): those tracks are left to that finding
+            if c.get("la") and "__" in c["la"][0] and not (route == "mps" and lib.default_license_url(env, m["stream"])):
+                ic["manifest_pr_pssh"] = next((cp["pssh"].hex() for cp in adp["cps"]
+                                               if cp["pssh"] is not None and lib.system_of_scheme(cp["scheme"]) == "playready"), None)
             out.append((ic, m, ri, iurl))
     return 200, out
+
+
+def handed_on_failures(ic, ri) -> list[dict]:
+    """a licence-URL override given to the manifest is handed on through the init URL: the PlayReady pssh of
+    the init segment is the box the manifest itself embeds"""
+    want = ic.get("manifest_pr_pssh")
+    if not want or ri.status_code != 200:
+        return []
+    try:
+        got = [p.raw.hex() for p in lib.moov_psshs(ri.data) if p.system_id == orc.PLAYREADY_SYSTEM_ID]
+    except Exception:
+        return []
+    if got and got[0] != want:
+        def la(h):
+            try:
+                return orc.read_wrmheader(orc.parse_pro(lib.parse_standalone_pssh(bytes.fromhex(h)).data)[0][2])["la_url"]
+            except Exception:
+                return "?"
+        return [{"what": f"the PlayReady pssh of the init segment (LA_URL {la(got[0])!r}) is not the cenc:pssh the manifest "
+                         f"embeds (LA_URL {la(want)!r})"}]
+    return []
 
 
 def oracle_via_manifest(env, c, only_rep=None) -> list[dict]:
@@ -846,7 +887,7 @@ def oracle_via_manifest(env, c, only_rep=None) -> list[dict]:
             fails.append({"what": f"the init URL the manifest advertises ({iurl}) answered {ri.status_code}",
                           "case": dict(c, rep=ic["name"])})
             continue
-        for f in oracle_init(env, ic, m, ri):
+        for f in oracle_init(env, ic, m, ri) + handed_on_failures(ic, ri):
             fails.append({"what": f"init segment fetched through the URL the manifest advertises ({iurl}): {f['what']}",
                           "case": dict(c, rep=ic["name"])})
     return fails
@@ -880,14 +921,14 @@ def ch_via_manifest(ctx, env) -> Channel:
         if m["encrypted"]:
             ch.nontrivial.add((c["route"], c["stream"], c["manifest"], c["mode"], c["drm"], ic["name"]))
         if ri.status_code == 200 and mo not in ("driver-error", "err") and mo != ri.data.hex() \
-                and not has_largesize(stored_init(m)):
+                and not has_largesize(stored_init(m)) and not c.get("la"):
             ch.disagreements.append({"case": dict(c, rep=ic["name"]), "init_url": iurl, "model_len": len(mo) // 2,
                                      "impl_len": len(ri.data)})
         if ri.status_code >= 500:
             ch.oracle_failures.append({"what": f"the init URL the manifest advertises ({iurl}) answered {ri.status_code}",
                                        "case": dict(c, rep=ic["name"])})
             continue
-        fails = oracle_init(env, ic, m, ri)
+        fails = oracle_init(env, ic, m, ri) + handed_on_failures(ic, ri)
         if fails:
             ch.oracle_failures.append({"what": f"init segment fetched through the URL the manifest advertises ({iurl}): "
                                                f"{fails[0]['what']}", "case": dict(c, rep=ic["name"])})
